@@ -203,7 +203,7 @@ def corelang_cases(draw):
 
 
 CLAUSES = [
-    Clause('generated-programs', check_case, kind='random', strategy=cases, budget={'quick': 6000, 'thorough': 60000}),
-    Clause('corelang', check_case, kind='random', strategy=corelang_cases, budget={'quick': 100, 'thorough': 1500},
-           shards={'quick': 8, 'thorough': 16}),
+    Clause('generated-programs', check_case, kind='random', strategy=cases, budget={'quick': 6000, 'thorough': 180000}),
+    Clause('corelang', check_case, kind='random', strategy=corelang_cases, budget={'quick': 100, 'thorough': 4500},
+           shards={'quick': 8, 'thorough': 48}),
 ]
